@@ -11,7 +11,7 @@ CONSTANTS
   Variant = "ok"
   Sigs = {0, 2, 3}
   MaxHeight = 4
-  MaxBlocks = 5
+  MaxBlocks = 6
   MaxReorg = 3
   MaxCrashes = 1
   FreeChoice = TRUE
